@@ -78,8 +78,8 @@ def corrupt_fams(thorough):
             "gen_corrupt:statements": {"BaseFamily": '"statements"', "EditMenu": 22, "Bound": 3},
         }
     return {
-        "gen_corrupt:operators": {"BaseFamily": '"operators"', "EditMenu": 8},
-        "gen_corrupt:positions": {"BaseFamily": '"positions"', "EditMenu": 3},
+        "gen_corrupt:operators": {"BaseFamily": '"operators"', "EditMenu": 22},
+        "gen_corrupt:positions": {"BaseFamily": '"positions"', "EditMenu": 4},
     }
 
 
